@@ -184,7 +184,7 @@ class IncrementalKSTest(BaseStatisticalTest):
         # Uses scipy code adaptation to calculate approximate p-value
         n, m = float(X_ref_num_samples), float(X_num_samples)
         en = n * m / (n + m)
-        p_value = kstwo.sf(statistic, np.round(en))[0]
+        p_value = kstwo.sf(statistic, np.round(en))
         return p_value
 
     @staticmethod
@@ -224,4 +224,4 @@ class IncrementalKSTest(BaseStatisticalTest):
                 )
         except (FloatingPointError, OverflowError):
             return np.nan
-        return p_value
+        return np.clip(p_value, 0.0, 1.0)
